@@ -322,22 +322,31 @@ impl<'s> IntoIterator for &'s AttrMap {
     }
 }
 
-#[derive(Debug, Clone, Default, PartialEq)]
+#[derive(Clone, Default, PartialEq)]
 pub struct ClassList {
     classes: Vec<String>,
+    // which classes are present: membership tests must not scan the list (a long class
+    // attribute took time quadratic in its length)
+    present: std::collections::HashSet<String>,
+}
+
+impl fmt::Debug for ClassList {
+    fn fmt(&self, f: &mut fmt::Formatter<'_>) -> fmt::Result {
+        f.debug_struct("ClassList")
+            .field("classes", &self.classes)
+            .finish()
+    }
 }
 
 impl ClassList {
     pub fn new() -> Self {
-        Self {
-            classes: Vec::new(),
-        }
+        Self::default()
     }
 
     /// Insert the given class into the `ClassList`.
     pub fn insert(&mut self, class: impl Into<String>) {
         let class = class.into();
-        if !self.classes.contains(&class) {
+        if self.present.insert(class.clone()) {
             self.classes.push(class);
         }
     }
@@ -350,7 +359,7 @@ impl ClassList {
 
     pub fn contains(&self, class: impl Into<String>) -> bool {
         let class = class.into();
-        self.classes.contains(&class)
+        self.present.contains(&class)
     }
 
     pub fn is_empty(&self) -> bool {
@@ -373,12 +382,13 @@ impl ClassList {
 
     pub fn remove(&mut self, class: impl Into<String>) -> bool {
         let class = class.into();
+        if !self.present.remove(&class) {
+            return false;
+        }
         if let Some(pos) = self.classes.iter().position(|c| *c == class) {
             self.classes.remove(pos);
-            true
-        } else {
-            false
         }
+        true
     }
 
     pub fn to_vec(&self) -> Vec<String> {
